@@ -445,6 +445,7 @@ def new_ltf_plan(**args):
         
         # If only one segment possible, use the full data length
         nseg = int(np.round((N - dftlen) / (xov * dftlen) + 1))
+        nseg = min(nseg, N - dftlen + 1)  # at most N-L+1 distinct segment positions
         if nseg == 1:
             dftlen = N
 
@@ -458,6 +459,7 @@ def new_ltf_plan(**args):
             dftlen = int(fs/fres) # Recalculate L if bmin was enforced
             fbin = bmin
             nseg = int(np.round((N - dftlen) / (xov * dftlen) + 1))
+            nseg = min(nseg, N - dftlen + 1)
 
 
         # --- C. Store results and update state for the next iteration ---
